@@ -255,3 +255,161 @@ func catalogueComments() *idlgen.Program {
 	(&decorator{}).program(p)
 	return p
 }
+
+// ---- same names in includer and include; struct constants as container elements
+
+func effNS(f *idlgen.File) string {
+	if f.GoNS != "" {
+		return f.GoNS
+	}
+	return f.Prefix()
+}
+
+func appendOrder(f *idlgen.File, kind byte, n int) {
+	if len(f.Order) == 0 {
+		return
+	}
+	var total int
+	switch kind {
+	case 's':
+		total = len(f.Structs)
+	case 'c':
+		total = len(f.Consts)
+	case 't':
+		total = len(f.Typedefs)
+	}
+	for i := total - n; i < total; i++ {
+		f.Order = append(f.Order, idlgen.DefRef{Kind: kind, Idx: i})
+	}
+}
+
+// addShadow: constants with the same name and different values in file 0 and in one of its includes, referenced
+// bare and qualified from values whose TYPE lives in the include: literals of a foreign struct, typedef'd foreign
+// containers (elements, and a bare identifier as the whole value), field defaults. Reports whether it applied.
+func addShadow(p *idlgen.Program, tag int, count func(string)) bool {
+	f0 := p.Files[0]
+	if len(f0.Includes) == 0 {
+		return false
+	}
+	k := f0.Includes[tag%len(f0.Includes)]
+	fk := p.Files[k]
+	if effNS(fk) == effNS(f0) {
+		return false // one Go package: the two constants would be one name
+	}
+	pre := fk.Prefix() + "."
+	n := func(s string) string { return fmt.Sprintf("%s%d", s, tag) }
+	inc := int64(10 + tag)
+	i32, str := tb(idlgen.I32), tb(idlgen.String)
+	// the include
+	fk.Typedefs = append(fk.Typedefs, &idlgen.Typedef{Name: n("ShadowL"), Type: tl(i32)}, &idlgen.Typedef{Name: n("ShadowM"), Type: tm(str, i32)})
+	appendOrder(fk, 't', 2)
+	fk.Structs = append(fk.Structs, &idlgen.Struct{Kind: 's', Name: n("ShadowQ"), Fields: []*idlgen.Field{
+		fld(1, "limit", rD, i32, nil), fld(2, "name", rD, str, nil), fld(3, "xs", rD, tl(i32), nil)}})
+	appendOrder(fk, 's', 1)
+	fk.Consts = append(fk.Consts, cdef(n("SHADOW"), i32, cI(fmt.Sprint(inc), vI(inc))), cdef(n("SHADOWS"), str, cQ("inc")),
+		cdef(n("SHADOWLIST"), tl(i32), cL(vL(vI(inc)), cI(fmt.Sprint(inc), vI(inc)))))
+	appendOrder(fk, 'c', 3)
+	// the includer
+	tQ, tL, tM := tn(k, n("ShadowQ")), tn(k, n("ShadowL")), tn(k, n("ShadowM"))
+	bare := func() *idlgen.Const { return cId(n("SHADOW"), vI(99)) }
+	qual := func() *idlgen.Const { return cId(pre+n("SHADOW"), vI(inc)) }
+	only := func() *idlgen.Const { return cId(n("ONLYROOT"), vI(7)) }
+	q := func(limit int64, name string, xs *values.Value) *values.Value { return vR(vI(limit), vS(name), xs) }
+	f0.Consts = append(f0.Consts,
+		cdef(n("SHADOW"), i32, cI("99", vI(99))), cdef(n("SHADOWS"), str, cQ("root")), cdef(n("ONLYROOT"), i32, cI("7", vI(7))),
+		cdef(n("SHADOWLIST"), tl(i32), cL(vL(vI(5)), cI("5", vI(5)))),
+		cdef(n("SQ1_"), tQ, cM(q(99, "root", vL(vI(99), vI(inc), vI(7))), cQ("limit"), bare(), cQ("name"), cId(n("SHADOWS"), vS("root")),
+			cQ("xs"), cL(vL(vI(99), vI(inc), vI(7)), bare(), qual(), only()))),
+		cdef(n("SQ2_"), tQ, cM(q(inc, "inc", vN()), cQ("limit"), qual(), cQ("name"), cId(pre+n("SHADOWS"), vS("inc")))),
+		cdef(n("SQ3_"), tQ, cM(q(7, "", vL(vI(5))), cQ("limit"), only(), cQ("xs"), cId(n("SHADOWLIST"), vL(vI(5))))),
+		cdef(n("SL1_"), tL, cL(vL(vI(99), vI(inc), vI(7)), bare(), qual(), only())),
+		cdef(n("SL2_"), tL, cId(n("SHADOWLIST"), vL(vI(5)))),
+		cdef(n("SL3_"), tL, cId(pre+n("SHADOWLIST"), vL(vI(inc)))),
+		cdef(n("SM1_"), tM, cM(vM(vS("a"), vI(99), vS("b"), vI(7), vS("c"), vI(inc)), cQ("a"), bare(), cQ("b"), only(), cQ("c"), qual())),
+	)
+	appendOrder(f0, 'c', 11)
+	f0.Structs = append(f0.Structs, &idlgen.Struct{Kind: 's', Name: n("ShadowH"), Fields: []*idlgen.Field{
+		fld(1, "q", rD, tQ, cM(q(99, "", vN()), cQ("limit"), bare())),
+		fld(2, "l", rD, tL, cL(vL(vI(7), vI(99)), only(), bare())),
+		fld(3, "m", rO, tM, cM(vM(vS("k"), vI(99)), cQ("k"), bare())),
+	}})
+	appendOrder(f0, 's', 1)
+	if count != nil {
+		count("shadow.applied")
+	}
+	return true
+}
+
+// addElems: containers (possibly nested) whose struct elements are written as identifiers of struct constants,
+// local and -- when file 0 has a usable include -- foreign; as constants and as field defaults.
+func addElems(p *idlgen.Program, tag int, count func(string)) {
+	f0 := p.Files[0]
+	n := func(s string) string { return fmt.Sprintf("%s%d", s, tag) }
+	i32, str := tb(idlgen.I32), tb(idlgen.String)
+	item := func(v int64) *values.Value { return vR(vI(v), vN()) }
+	mk := func(f *idlgen.File, name string) {
+		f.Structs = append(f.Structs, &idlgen.Struct{Kind: 's', Name: name, Fields: []*idlgen.Field{fld(1, "n", rD, i32, nil), fld(2, "s", rO, str, nil)}})
+		appendOrder(f, 's', 1)
+	}
+	mk(f0, n("ElemItem"))
+	tI := tn(0, n("ElemItem"))
+	v1 := int64(tag + 1)
+	apple := func() *idlgen.Const { return cId(n("ELEM"), item(v1)) }
+	lit2 := func() *idlgen.Const { return cM(item(2), cQ("n"), cI("2", vI(2))) }
+	f0.Consts = append(f0.Consts,
+		cdef(n("ELEM"), tI, cM(item(v1), cQ("n"), cI(fmt.Sprint(v1), vI(v1)))),
+		cdef(n("ELEML"), tl(tI), cL(vL(item(v1), item(2), item(v1)), apple(), lit2(), apple())),
+		cdef(n("ELEMM"), tm(str, tI), cM(vM(vS("a"), item(v1), vS("b"), item(2)), cQ("a"), apple(), cQ("b"), lit2())),
+		cdef(n("ELEMLL"), tl(tl(tI)), cL(vL(vL(item(v1)), vL()), cL(vL(item(v1)), apple()), cL(vL()))),
+		cdef(n("ELEMML"), tm(i32, tl(tI)), cM(vM(vI(1), vL(item(v1), item(v1))), cI("1", vI(1)), cL(vL(item(v1), item(v1)), apple(), apple()))),
+	)
+	appendOrder(f0, 'c', 5)
+	hf := []*idlgen.Field{
+		fld(1, "items", rD, tl(tI), cL(vL(item(v1)), apple())),
+		fld(2, "by_name", rO, tm(str, tI), cM(vM(vS("k"), item(v1)), cQ("k"), apple())),
+	}
+	if len(f0.Includes) > 0 && effNS(p.Files[f0.Includes[tag%len(f0.Includes)]]) != effNS(f0) {
+		k := f0.Includes[tag%len(f0.Includes)]
+		fk := p.Files[k]
+		pre := fk.Prefix() + "."
+		mk(fk, n("ElemItemF"))
+		fk.Consts = append(fk.Consts, cdef(n("ELEMF"), tn(k, n("ElemItemF")), cM(item(40), cQ("n"), cI("40", vI(40)))))
+		appendOrder(fk, 'c', 1)
+		tF := tn(k, n("ElemItemF"))
+		pear := func() *idlgen.Const { return cId(pre+n("ELEMF"), item(40)) }
+		f0.Consts = append(f0.Consts,
+			cdef(n("ELEMFL"), tl(tF), cL(vL(item(40), item(2)), pear(), lit2())),
+			cdef(n("ELEMFM"), tm(str, tF), cM(vM(vS("p"), item(40)), cQ("p"), pear())),
+		)
+		appendOrder(f0, 'c', 2)
+		hf = append(hf, fld(3, "foreign", rD, tl(tF), cL(vL(item(40)), pear())))
+		if count != nil {
+			count("elems.foreign")
+		}
+	}
+	f0.Structs = append(f0.Structs, &idlgen.Struct{Kind: 's', Name: n("ElemHolder"), Fields: hf})
+	appendOrder(f0, 's', 1)
+	if count != nil {
+		count("elems.applied")
+	}
+}
+
+// twoFiles: the skeleton of the aimed units: a.thrift includes b.thrift.
+func twoFiles(ns string) *idlgen.Program {
+	b := &idlgen.File{Path: "b.thrift", GoNS: ns + ".pb"}
+	a := &idlgen.File{Path: "a.thrift", GoNS: ns + ".pa", Includes: []int{1}}
+	return &idlgen.Program{Files: []*idlgen.File{a, b}}
+}
+
+func catalogueShadow() *idlgen.Program {
+	p := twoFiles("shadow")
+	addShadow(p, 0, nil)
+	addShadow(p, 1, nil)
+	return p
+}
+
+func catalogueElems() *idlgen.Program {
+	p := twoFiles("elems")
+	addElems(p, 0, nil)
+	return p
+}
